@@ -1,5 +1,6 @@
 (* Run/C38.v -- case decoder / observable encoder for the C38 correspondence.
-   case  = ( BLOCKS OPS )
+   case  = ( BLOCKS OPS ) or ( BLOCKS OPS 1 ); the flag makes the Go oracle report the recorded
+           deviations (known findings) as failures instead of tags; the model ignores it
      block = (id parent number TXS)  with TXS a list of (txid nlogs); id 0 = genesis
      op    = (0 IDS) InsertChain | (1 id) InsertBlockWithoutSetHead | (2 id) SetCanonical
            | (3 n) SetHead | (4) Stop + NewBlockChain
@@ -83,7 +84,7 @@ Fixpoint run_ops (T : tree) (fuel : nat) (maxn : N) (txids : list N) (st : db) (
 
 Definition C38_run (c : sx) : sx :=
   match c with
-  | SL [bs; os] =>
+  | SL (bs :: os :: ([] | [_])) =>   (* an optional third element only steers the harness's reporting *)
     match sx_list_of dec_block bs, sx_list_of dec_op os with
     | Some blocks, Some ops =>
       let T := tree_of_list (map fst blocks) in
